@@ -28,6 +28,7 @@ import (
 	"path/filepath"
 	"regexp"
 	"runtime/debug"
+	"sort"
 	"strconv"
 	"strings"
 	"time"
@@ -54,7 +55,7 @@ type c18Params struct {
 	Handled int    `json:"handled,omitempty"` // run: 0 no, 1 a handled exception earlier in main, 2 right before the fault
 	Site    int    `json:"site,omitempty"`    // run: 0 mixed call-site forms, k>0 every call site of form k-1
 	NoTrail bool   `json:"no_trailing_eol,omitempty"`
-	Other   int    `json:"other_handlers,omitempty"` // run: 1 = every method on the way (and the main program) has a 拦截 block for ANOTHER exception class; 2 = an imported module 影 exports methods named like the program's own
+	Other   int    `json:"other_handlers,omitempty"` // run: 1 = every method on the way (and the main program) has a 拦截 block for ANOTHER exception class; 2 = an imported module 影 exports methods named like the program's own; 3 = right before the fault statement and before every call on the chain a call that has RETURNED, of a method of module 齐 whose last statement sits on the very line number of the statement that follows; 4 = the same, the one before the fault returning through an exception handled in the callee (module 齐拦)
 	Rune    int    `json:"rune,omitempty"`           // wid: the character in front of the offending one
 }
 
@@ -316,10 +317,11 @@ type c18Prog struct {
 	Main, Ext  string
 	HasExt     bool
 	SynMod     string
-	Syn        []c18SynExp // acceptable positions
-	Chain      []c18Loc    // outermost first
-	ImportLine int         // imp: line of the 导入 statement in main
-	Shadow     string      // run, Other == 2: text of module 影
+	Syn        []c18SynExp       // acceptable positions
+	Chain      []c18Loc          // outermost first
+	ImportLine int               // imp: line of the 导入 statement in main
+	Shadow     string            // run, Other == 2: text of module 影
+	Extra      map[string]string // run, Other >= 3: further module files (name without .zn -> text)
 }
 
 type c18Builder struct {
@@ -333,6 +335,9 @@ type c18Builder struct {
 	viaLine   int
 	viaText   string
 	nvar      int
+	aligned   [2][]int // Other >= 3: line numbers on which a method of module 齐 (calls in the main file) / 齐外 (calls in 外) must end
+	extFile   *c18File
+	alignedH  int // Other == 4: the line number on which the method of module 齐拦 must end (0: none)
 }
 
 var c18Names = []string{"", "甲法", "乙法", "丙法"}
@@ -391,6 +396,9 @@ func (b *c18Builder) fault(f *c18File, ind int) {
 			return f.raw(pending + text)
 		}
 		return f.add(ind, text)
+	}
+	if p.Mode == "run" && p.Other >= 3 {
+		b.alignCall(f, ind, p.Other == 4)
 	}
 	switch {
 	case p.Mode == "run" || p.Mode == "imp":
@@ -481,29 +489,84 @@ func (b *c18Builder) body(f *c18File, base int) {
 }
 
 // callSite writes a call of callee in the given form and returns the line of the call.
-func c18CallSite(f *c18File, ind int, callee string, form int) (int, string) {
+func c18CallSite(f *c18File, ind int, callee string, form int, before func(f *c18File, ind int)) (int, string) {
 	call := "（" + callee + "）"
+	if before == nil {
+		before = func(*c18File, int) {}
+	}
 	switch form {
 	case 0:
+		before(f, ind)
 		return f.add(ind, call), call
 	case 1:
 		t := "令回 = " + call
+		before(f, ind)
 		return f.add(ind, t), t
 	case 2:
 		f.add(ind, "如果 真：")
+		before(f, ind+1)
 		return f.add(ind+1, call), call
 	case 3:
 		f.add(ind, "令转 = 0")
 		f.add(ind, "每当 转 < 1：")
 		f.add(ind+1, "转 = 转 + 1")
+		before(f, ind+1)
 		return f.add(ind+1, call), call
 	case 4:
 		f.add(ind, "遍历 【1，2】：")
+		before(f, ind+1)
 		return f.add(ind+1, call), call
 	default:
 		t := "（显示：" + call + "）"
+		before(f, ind)
 		return f.add(ind, t), t
 	}
+}
+
+// alignCall (Other >= 3) writes a statement that calls a method of module 齐 whose last executed
+// statement is on the line number of the NEXT line of f: the call has returned when that line runs.
+func (b *c18Builder) alignCall(f *c18File, ind int, handled bool) {
+	n := len(f.lines) + 2
+	if handled && n >= 4 {
+		b.alignedH = n
+		f.add(ind, fmt.Sprintf("（齐拦%d）", n))
+		return
+	}
+	k, pre := 0, "齐"
+	if f == b.extFile {
+		k, pre = 1, "外齐"
+	}
+	b.aligned[k] = append(b.aligned[k], n)
+	f.add(ind, fmt.Sprintf("（%s%d）", pre, n))
+}
+
+// alignedModules builds 齐, 齐外 (and 齐拦): method 齐N ends, with 输出, on line N of its file.
+func (b *c18Builder) alignedModules(eol string) map[string]string {
+	out := map[string]string{}
+	for k, mod := range []string{"齐", "齐外"} {
+		ns := append([]int{}, b.aligned[k]...)
+		sort.Ints(ns)
+		var lines []string
+		for _, n := range ns {
+			if len(lines) > n-2 {
+				panic(fmt.Sprintf("c18 generator: aligned methods too close (%v)", ns))
+			}
+			for len(lines) < n-2 {
+				lines = append(lines, "")
+			}
+			lines = append(lines, fmt.Sprintf("如何%s%d？", []string{"齐", "外齐"}[k], n), "    输出 0")
+		}
+		out[mod] = strings.Join(lines, eol) + eol
+	}
+	if b.alignedH > 0 {
+		var hl []string
+		for len(hl) < b.alignedH-4 {
+			hl = append(hl, "")
+		}
+		hl = append(hl, fmt.Sprintf("如何齐拦%d？", b.alignedH), "    抛出异常：“齐”！", "    拦截异常：", "        输出 0")
+		out["齐拦"] = strings.Join(hl, eol) + eol
+	}
+	return out
 }
 
 const c18SiteForms = 6
@@ -642,6 +705,19 @@ func c18Build(p c18Params) (pr c18Prog) {
 	if pr.HasExt {
 		main.add(0, "导入《外》")
 	}
+	var alignBefore func(f *c18File, ind int)
+	if p.Other >= 3 {
+		b.extFile = ext
+		for k, f := range []*c18File{main, ext} {
+			if f == main || pr.HasExt {
+				f.add(0, "导入《"+[]string{"齐", "齐外"}[k]+"》")
+				if p.Other == 4 {
+					f.add(0, "导入《齐拦》")
+				}
+			}
+		}
+		alignBefore = func(f *c18File, ind int) { b.alignCall(f, ind, false) }
+	}
 	if faultFile == main {
 		b.topCtx(main)
 	} else {
@@ -673,7 +749,7 @@ func c18Build(p c18Params) (pr c18Prog) {
 		f.add(0, "如何"+c18Names[l]+"？")
 		if l < D {
 			f.add(1, fmt.Sprintf("令子 = %d", l))
-			callLine[l], callText[l] = c18CallSite(f, 1, c18Names[l+1], c18SiteForm(p, l))
+			callLine[l], callText[l] = c18CallSite(f, 1, c18Names[l+1], c18SiteForm(p, l), alignBefore)
 			f.add(1, "输出 0")
 			otherHandler(f)
 			f.add(0, "")
@@ -692,7 +768,7 @@ func c18Build(p c18Params) (pr c18Prog) {
 	if D == 0 {
 		b.body(main, 0)
 	} else {
-		callLine[0], callText[0] = c18CallSite(main, 0, c18Names[1], c18SiteForm(p, 0))
+		callLine[0], callText[0] = c18CallSite(main, 0, c18Names[1], c18SiteForm(p, 0), alignBefore)
 		main.add(0, "（显示：“终”）")
 		if p.Other == 1 {
 			main.add(0, "拦截缺货：")
@@ -712,6 +788,9 @@ func c18Build(p c18Params) (pr c18Prog) {
 	pr.Main = c18Join(main, p, !(p.NoTrail && faultFile == main))
 	if pr.HasExt {
 		pr.Ext = c18Join(ext, p, !(p.NoTrail && faultFile == ext))
+	}
+	if p.Other >= 3 {
+		pr.Extra = b.alignedModules(c18EOLs[p.EOL])
 	}
 	return
 }
@@ -795,7 +874,7 @@ func c18Cleanup() {
 }
 
 func c18Run(pr c18Prog) (zn.Outcome, error) {
-	if !pr.HasExt && pr.Shadow == "" {
+	if !pr.HasExt && pr.Shadow == "" && len(pr.Extra) == 0 {
 		return zn.RunReal(pr.Main, nil), nil
 	}
 	if c18Dir == "" {
@@ -816,6 +895,11 @@ func c18Run(pr c18Prog) (zn.Outcome, error) {
 			return zn.Outcome{}, err
 		}
 		c18Written[i] = src
+	}
+	for name, src := range pr.Extra {
+		if err := os.WriteFile(filepath.Join(c18Dir, name+".zn"), []byte(src), 0o644); err != nil {
+			return zn.Outcome{}, err
+		}
 	}
 	return zn.RunRealFile(filepath.Join(c18Dir, "主.zn"), nil), nil
 }
@@ -1176,6 +1260,12 @@ func c18Enumerate(tier string, visit func(p c18Params)) {
 										if h == 0 {
 											visit(c18Params{Mode: "run", Kind: kind, Tmpl: ti, Slot: si, EOL: eol, Depth: x.d, Mod: x.m, Other: 2})
 										}
+									}
+									// calls that have returned and whose last statement sat on the line number of the
+									// statement that follows them (in another module): before the fault, before every call
+									if len(cc.ctx) == 0 && site == 0 && h != 2 {
+										visit(c18Params{Mode: "run", Kind: kind, Tmpl: ti, Slot: si, EOL: eol, Depth: x.d, Mod: x.m, Handled: h, Other: 3})
+										visit(c18Params{Mode: "run", Kind: kind, Tmpl: ti, Slot: si, EOL: eol, Depth: x.d, Mod: x.m, Handled: h, Other: 4})
 									}
 								}
 							}
